@@ -218,62 +218,44 @@ Proof.
   - destruct H as [H|H]; auto.
 Qed.
 
-Lemma Post_in_stages : forall d p, In Post (stages d p) -> p = true.
-Proof.
-  intros d p H. destruct p; [reflexivity|]. destruct d; simpl in H;
-    repeat (destruct H as [H|H]; [discriminate|]); contradiction.
-Qed.
-
 Lemma wf_tmp_split : forall c, wf_tmp c = true -> under (root c) (tmp c) = false /\ under (tmp c) (root c) = false.
 Proof.
   intros c H. unfold wf_tmp in H. apply andb_true_iff in H. destruct H as [H1 H2].
   apply negb_true_iff in H1. apply negb_true_iff in H2. auto.
 Qed.
 
-Lemma guard_F10b_post : forall c, guard_F10b c = true -> post c = true ->
-  under (root c) (cwd c ++ [s_ruff_cache]) = false.
-Proof.
-  intros c H Hp. unfold guard_F10b in H. rewrite Hp in H. simpl in H. apply negb_true_iff in H. exact H.
-Qed.
-
-Lemma effects_diff_outside : forall c st, wf_tmp c = true -> guard_F10b c = true ->
-  In st (stages true (post c)) ->
+Lemma effects_diff_outside : forall c st, wf_tmp c = true ->
   Forall (fun op => op_outside (root c) op) (effects c true st).
 Proof.
-  intros c st Hw Hg Hin. destruct (wf_tmp_split c Hw) as [H1 H2].
-  assert (Hgen : Forall (fun op => op_outside (root c) op) (map (rebase (tmp c)) (rel_effects c true st))).
-  { apply Forall_forall. intros op Hop. apply in_map_iff in Hop. destruct Hop as [op' [E _]]. subst.
-    apply rebase_outside; assumption. }
-  destruct st; try exact Hgen.
-  (* Post *)
-  simpl. constructor; [|constructor]. simpl. apply guard_F10b_post; [exact Hg|].
-  eapply Post_in_stages. exact Hin.
+  intros c st Hw. destruct (wf_tmp_split c Hw) as [H1 H2]. unfold effects.
+  apply Forall_forall. intros op Hop. apply in_map_iff in Hop. destruct Hop as [op' [E _]]. subst.
+  apply rebase_outside; assumption.
 Qed.
 
-Lemma plan_diff_outside : forall c k, wf_tmp c = true -> guard_F10b c = true ->
+Lemma plan_diff_outside : forall c k, wf_tmp c = true ->
   Forall (fun so => op_outside (root c) (snd so)) (plan_main c true k ++ plan_final c true k).
 Proof.
-  intros c k Hw Hg. apply Forall_app. split.
+  intros c k Hw. apply Forall_app. split.
   - unfold plan_main. apply Forall_forall. intros [st op] Hin. apply in_flat_map in Hin.
     destruct Hin as [st' [Hst Hin]]. apply in_map_iff in Hin. destruct Hin as [op' [E Hop]].
     inversion E; subst. simpl.
-    pose proof (effects_diff_outside c st Hw Hg (before_incl _ _ _ Hst)) as HF.
+    pose proof (effects_diff_outside c st Hw) as HF.
     rewrite Forall_forall in HF. apply HF. exact Hop.
-  - unfold plan_final. destruct (true && existsb (stage_eqb Setup) (before k (stages true (post c)))); [|constructor].
+  - unfold plan_final. destruct (true && existsb (stage_eqb Setup) (before k (run_stages c true))); [|constructor].
     constructor; [|constructor]. simpl. destruct (wf_tmp_split c Hw) as [H1 H2]. split; assumption.
 Qed.
 
 (* C10_noforce *)
 Theorem noforce_untouched : forall c k s,
-  wf_tmp c = true -> guard_F10b c = true ->
+  wf_tmp c = true ->
   force c = false -> exists_b s (out_dir c) = true ->
   restrict_root c (fst (generate c k s)) = restrict_root c s.
 Proof.
-  intros c k s Hw Hg Hf He. unfold generate. cbn [fst].
+  intros c k s Hw Hf He. unfold generate. cbn [fst].
   assert (Hd : diff_mode c s = true) by (unfold diff_mode; rewrite Hf, He; reflexivity).
   rewrite Hd. unfold restrict_root.
   change (fun kv : path * entry => under (root c) (fst kv)) with (inr (root c)).
-  pose proof (plan_diff_outside c k Hw Hg) as HF. apply Forall_app in HF. destruct HF as [HF1 HF2].
+  pose proof (plan_diff_outside c k Hw) as HF. apply Forall_app in HF. destruct HF as [HF1 HF2].
   rewrite (exec_outside _ _ _ HF2). apply exec_outside. exact HF1.
 Qed.
 
@@ -416,17 +398,35 @@ Qed.
 Definition abs_ok (c : config) (op : fs_op) : Prop :=
   op_outside (root c) op \/ exists rop, op = rebase (root c) rop /\ rel_ok c rop = true.
 
-Lemma effects_direct_ok : forall c st, wf_pkg c = true -> guard_F10b c = true ->
-  In st (stages false (post c)) -> Forall (abs_ok c) (effects c false st).
+Lemma is_ident_nonempty : forall x, is_ident x = true -> nonempty x = true.
+Proof. intros x H. destruct x; [discriminate | reflexivity]. Qed.
+
+Lemma forallb_ident_nonempty : forall l, forallb is_ident l = true -> forallb nonempty l = true.
 Proof.
-  intros c st Hwf Hg Hin.
-  assert (Hgen : Forall (abs_ok c) (map (rebase (root c)) (rel_effects c false st))).
-  { apply Forall_forall. intros op Hop. apply in_map_iff in Hop. destruct Hop as [rop [E Hr]]. subst.
+  induction l as [|x l IH]; intro H; simpl in *; [reflexivity|].
+  apply andb_true_iff in H. destruct H as [H1 H2]. rewrite (is_ident_nonempty x H1). simpl. auto.
+Qed.
+
+Lemma valid_wf : forall c, valid_pkgs c = true -> wf_pkg c = true.
+Proof.
+  intros c H. unfold valid_pkgs, valid_pkg in H.
+  apply andb_true_iff in H. destruct H as [Ho Hk]. apply andb_true_iff in Ho. destruct Ho as [Ho1 Ho2].
+  unfold wf_pkg, core_fqn. rewrite Ho1, (forallb_ident_nonempty _ Ho2). simpl.
+  destruct (core_pkg c) as [k|].
+  - apply andb_true_iff in Hk. destruct Hk as [Hk1 Hk2]. rewrite Hk1, (forallb_ident_nonempty _ Hk2). reflexivity.
+  - rewrite forallb_app, (forallb_ident_nonempty _ Ho2). simpl.
+    destruct (out_pkg c); reflexivity.
+Qed.
+
+Lemma effects_direct_ok : forall c st,
+  In st (run_stages c false) -> Forall (abs_ok c) (effects c false st).
+Proof.
+  intros c st Hin. unfold run_stages in Hin. destruct (valid_pkgs c) eqn:Hv.
+  - pose proof (valid_wf c Hv) as Hwf. unfold effects.
+    apply Forall_forall. intros op Hop. apply in_map_iff in Hop. destruct Hop as [rop [E Hr]]. subst.
     right. exists rop. split; [reflexivity|].
-    pose proof (rel_effects_ok c st Hwf) as H. rewrite forallb_forall in H. apply H. exact Hr. }
-  destruct st; try exact Hgen.
-  simpl. constructor; [|constructor]. left. simpl. apply guard_F10b_post; [exact Hg|].
-  eapply Post_in_stages. exact Hin.
+    pose proof (rel_effects_ok c st Hwf) as H. rewrite forallb_forall in H. apply H. exact Hr.
+  - destruct Hin as [Hin|[Hin|[]]]; subst; constructor.
 Qed.
 
 Lemma touched_plan_ok : forall c pl s p, Forall (fun so => abs_ok c (snd so)) pl ->
@@ -442,77 +442,75 @@ Qed.
 
 (* C10_contained *)
 Theorem contained : forall c k s p,
-  wf_pkg c = true -> wf_tmp c = true -> guard_F10b c = true ->
+  wf_tmp c = true ->
   In p (touched s (plan c k s)) -> sunder (root c) p = true -> allowed c p = true.
 Proof.
-  intros c k s p Hwf Hw Hg Hin Hs. unfold plan in Hin. destruct (diff_mode c s) eqn:Hd.
-  - pose proof (touched_all_outside _ _ _ _ (plan_diff_outside c k Hw Hg) Hin) as Hu.
+  intros c k s p Hw Hin Hs. unfold plan in Hin. destruct (diff_mode c s) eqn:Hd.
+  - pose proof (touched_all_outside _ _ _ _ (plan_diff_outside c k Hw) Hin) as Hu.
     unfold sunder in Hs. rewrite Hu in Hs. discriminate.
   - unfold plan_final in Hin. cbn [andb] in Hin. rewrite app_nil_r in Hin.
     eapply touched_plan_ok; [|exact Hin|exact Hs].
     unfold plan_main. apply Forall_forall. intros [st op] Hso. apply in_flat_map in Hso.
     destruct Hso as [st' [Hst Hop]]. apply in_map_iff in Hop. destruct Hop as [op' [E Hop]].
     inversion E; subst. simpl.
-    pose proof (effects_direct_ok c st Hwf Hg (before_incl _ _ _ Hst)) as HF.
+    pose proof (effects_direct_ok c st (before_incl _ _ _ Hst)) as HF.
     rewrite Forall_forall in HF. apply HF. exact Hop.
 Qed.
 
 (* C10_result *)
 Theorem result_ok_iff : forall c k s,
   snd (generate c k s) = Ok <->
-  fails k (stages (diff_mode c s) (post c)) = false
+  fails k (run_stages c (diff_mode c s)) = false /\ valid_pkgs c = true
   /\ diff_mode c s && has_diff c (exec s (plan_main c (diff_mode c s) k)) = false.
 Proof.
   intros c k s. unfold generate. cbn [snd].
-  destruct (fails k (stages (diff_mode c s) (post c))) eqn:Ef.
+  destruct (fails k (run_stages c (diff_mode c s))) eqn:Ef.
   - destruct k as [f|]; [|discriminate Ef]. split; [discriminate | intros [H _]; discriminate].
-  - destruct (diff_mode c s && has_diff c (exec s (plan_main c (diff_mode c s) k))); split; auto;
-      try discriminate. intros [_ H]. discriminate.
+  - destruct (valid_pkgs c); cbn [negb].
+    + destruct (diff_mode c s && has_diff c (exec s (plan_main c (diff_mode c s) k))); split; auto;
+        try discriminate. intros [_ [_ H]]. discriminate.
+    + split; [discriminate | intros [_ [H _]]; discriminate].
 Qed.
 
 Theorem result_fail_iff : forall c k s f,
-  snd (generate c k s) = Fail f <-> k = Some f /\ fails k (stages (diff_mode c s) (post c)) = true.
+  snd (generate c k s) = Fail f <-> k = Some f /\ fails k (run_stages c (diff_mode c s)) = true.
 Proof.
   intros c k s f. unfold generate. cbn [snd].
-  destruct (fails k (stages (diff_mode c s) (post c))) eqn:Ef.
+  destruct (fails k (run_stages c (diff_mode c s))) eqn:Ef.
   - destruct k as [f'|]; [|discriminate Ef]. split.
     + intro H. inversion H; subst. auto.
     + intros [H _]. inversion H; subst. reflexivity.
   - split.
-    + destruct (diff_mode c s && has_diff c (exec s (plan_main c (diff_mode c s) k))); discriminate.
+    + destruct (valid_pkgs c); cbn [negb]; [|discriminate].
+      destruct (diff_mode c s && has_diff c (exec s (plan_main c (diff_mode c s) k))); discriminate.
     + intros [_ H]. discriminate.
 Qed.
 
-(* ---------- refutations ---------- *)
+(* invalid package names are rejected before anything is touched (F10a fixed) *)
+Theorem invalid_rejected : forall c s,
+  valid_pkgs c = false -> generate c None s = (s, Invalid) /\ plan c None s = [].
+Proof.
+  intros c s H. unfold generate, plan, plan_main, plan_final, run_stages. rewrite H. simpl.
+  rewrite andb_false_r. simpl. split; reflexivity.
+Qed.
+
+(* ---------- regressions: the witnesses of the fixed findings now meet the property ---------- *)
 Lemma existsb_path_In : forall p l, existsb (path_eqb p) l = true -> In p l.
 Proof.
   intros p l H. apply existsb_exists in H. destruct H as [x [Hin E]]. apply list_eqb_str_eq in E. subst. exact Hin.
 Qed.
 
-Lemma refuted_F10a :
-  wf_pkg cfg_F10a = false /\ wf_tmp cfg_F10a = true /\ guard_F10b cfg_F10a = true
-  /\ In (pR ++ [s_sentinel]) (touched fs0 (plan cfg_F10a None fs0))
-  /\ sunder (root cfg_F10a) (pR ++ [s_sentinel]) = true
-  /\ allowed cfg_F10a (pR ++ [s_sentinel]) = false
-  /\ lookup (pR ++ [s_sentinel]) (fst (generate cfg_F10a None fs0)) = None.
-Proof.
-  split; [vm_compute; reflexivity|]. split; [vm_compute; reflexivity|]. split; [vm_compute; reflexivity|].
-  split; [apply existsb_path_In; vm_compute; reflexivity|].
-  repeat split; vm_compute; reflexivity.
-Qed.
+(* F10a: output_package "." with force is rejected; the sentinel survives *)
+Lemma fixed_F10a :
+  valid_pkgs cfg_F10a = false /\ generate cfg_F10a None fs0 = (fs0, Invalid) /\ touched fs0 (plan cfg_F10a None fs0) = [].
+Proof. repeat split; vm_compute; reflexivity. Qed.
 
-Lemma refuted_F10b :
-  wf_pkg cfg_F10b = true /\ wf_tmp cfg_F10b = true /\ guard_F10b cfg_F10b = false
-  /\ force cfg_F10b = false /\ exists_b fs1 (out_dir cfg_F10b) = true
-  /\ restrict_root cfg_F10b (fst (generate cfg_F10b None fs1)) <> restrict_root cfg_F10b fs1
-  /\ In (pR ++ [s_ruff_cache]) (touched fs1 (plan cfg_F10b None fs1))
-  /\ allowed cfg_F10b (pR ++ [s_ruff_cache]) = false.
-Proof.
-  split; [vm_compute; reflexivity|]. split; [vm_compute; reflexivity|]. split; [vm_compute; reflexivity|].
-  split; [vm_compute; reflexivity|]. split; [vm_compute; reflexivity|].
-  split; [vm_compute; discriminate|].
-  split; [apply existsb_path_In; vm_compute; reflexivity | vm_compute; reflexivity].
-Qed.
+(* F10b: post-processing started from the project root, no force, existing package: nothing changes *)
+Lemma fixed_F10b :
+  valid_pkgs cfg_F10b = true /\ post cfg_F10b = true /\ cwd cfg_F10b = root cfg_F10b
+  /\ restrict_root cfg_F10b (fst (generate cfg_F10b None fs1)) = restrict_root cfg_F10b fs1
+  /\ snd (generate cfg_F10b None fs1) = DiffFound.
+Proof. repeat split; vm_compute; reflexivity. Qed.
 
 (* ---------- non-vacuity ---------- *)
 (* nested layout a.b.client with core a.core; existing tree with a locally edited client.py *)
@@ -525,7 +523,7 @@ Definition fs_ok : fs :=
           (pR ++ [s_a; s_b; s_client], Dir); (pR ++ [s_a; s_b; s_client; s_client_py], File 1);
           (pR ++ [s_a; s_core], Dir); (pR ++ [s_a; s_core; s_config], File 0)].
 Lemma guard_nonvacuous :
-  wf_pkg cfg_ok = true /\ wf_tmp cfg_ok = true /\ guard_F10b cfg_ok = true
+  valid_pkgs cfg_ok = true /\ wf_tmp cfg_ok = true
   /\ exists_b fs_ok (out_dir cfg_ok) = true
   /\ snd (generate cfg_ok None fs_ok) = DiffFound
   /\ snd (generate cfg_ok (Some Models) fs_ok) = Fail Models
@@ -537,7 +535,7 @@ Definition cfg_ok_force : config :=
   {| root := pR; tmp := pT; cwd := pB; out_pkg := [s_a; s_b; s_client]; core_pkg := Some [s_a; s_core];
      force := true; post := true; tags := [s_pets]; models := [s_pet] |}.
 Lemma guard_nonvacuous_force :
-  wf_pkg cfg_ok_force = true /\ guard_F10b cfg_ok_force = true
+  valid_pkgs cfg_ok_force = true /\ wf_tmp cfg_ok_force = true
   /\ snd (generate cfg_ok_force None fs_ok) = Ok
   /\ (length (filter (sunder pR) (touched fs_ok (plan cfg_ok_force None fs_ok))) > 40)%nat
   /\ lookup (pR ++ [s_sentinel]) (fst (generate cfg_ok_force None fs_ok)) = Some (File 1).
@@ -558,21 +556,21 @@ Qed.
 
 (* the diff path interrupted after n operations, then the TemporaryDirectory clean-up *)
 Theorem noforce_untouched_anywhere : forall c k s n,
-  wf_tmp c = true -> guard_F10b c = true ->
+  wf_tmp c = true ->
   restrict_root c (exec (exec s (firstn n (plan_main c true k))) [(Final, Rmtree (tmp c))]) = restrict_root c s.
 Proof.
-  intros c k s n Hw Hg. unfold restrict_root.
+  intros c k s n Hw. unfold restrict_root.
   change (fun kv : path * entry => under (root c) (fst kv)) with (inr (root c)).
-  pose proof (plan_diff_outside c k Hw Hg) as HF. apply Forall_app in HF. destruct HF as [HF1 _].
+  pose proof (plan_diff_outside c k Hw) as HF. apply Forall_app in HF. destruct HF as [HF1 _].
   rewrite exec_outside.
   - apply exec_outside. apply Forall_firstn. exact HF1.
   - constructor; [|constructor]. simpl. destruct (wf_tmp_split c Hw) as [H1 H2]. split; assumption.
 Qed.
 
 Theorem contained_anywhere : forall c k s n p,
-  wf_pkg c = true -> wf_tmp c = true -> guard_F10b c = true ->
+  wf_tmp c = true ->
   In p (touched s (firstn n (plan c k s))) -> sunder (root c) p = true -> allowed c p = true.
-Proof. intros c k s n p Hwf Hw Hg Hin. apply (contained c k s p Hwf Hw Hg). eapply touched_firstn. exact Hin. Qed.
+Proof. intros c k s n p Hw Hin. apply (contained c k s p Hw). eapply touched_firstn. exact Hin. Qed.
 
 (* ---------- failures inside a stage (the OS refuses one creation) ---------- *)
 Lemma Forall_skipn : forall {A} (P : A -> Prop) n l, Forall P l -> Forall P (skipn n l).
@@ -589,8 +587,7 @@ Proof.
   intros Q name c Hcl Hlog pl. induction pl as [|[st op] pl IH]; intros s H; simpl; [constructor|].
   inversion H as [|? ? H1 H2]; subst. simpl in H1.
   destruct (io_cut name s op) as [part|] eqn:Ecut.
-  - destruct (swallows st op); simpl.
-    + change (Forall (fun so : stage * fs_op => Q (snd so)) (skipn 2 pl)). apply Forall_skipn. exact H2.
+  - simpl.
     + apply Forall_forall. intros [st' op'] Hin. apply in_map_iff in Hin. destruct Hin as [op'' [E Hin]].
       inversion E; subst. simpl. apply in_app_or in Hin. destruct Hin as [Hin|Hin].
       * destruct op as [p t|p t|p|p|p]; simpl in Ecut.
@@ -632,11 +629,11 @@ Proof.
 Qed.
 
 Theorem noforce_untouched_io : forall c name s,
-  wf_tmp c = true -> wf_log c = true -> guard_F10b c = true ->
+  wf_tmp c = true -> wf_log c = true ->
   force c = false -> exists_b s (out_dir c) = true ->
   restrict_root c (fst (generate_io c name s)) = restrict_root c s.
 Proof.
-  intros c name s Hw Hl Hg Hf He. unfold generate_io. cbn [fst]. unfold plan_io, io_run.
+  intros c name s Hw Hl Hf He. unfold generate_io. cbn [fst]. unfold plan_io, io_run.
   assert (Hd : diff_mode c s = true) by (unfold diff_mode; rewrite Hf, He; reflexivity).
   rewrite Hd. unfold restrict_root.
   change (fun kv : path * entry => under (root c) (fst kv)) with (inr (root c)).
@@ -644,8 +641,9 @@ Proof.
   - apply (io_plan_Forall (op_outside (root c)) name c).
     + intros p q. apply outside_closed.
     + intro st. apply error_log_outside. exact Hl.
-    + pose proof (plan_diff_outside c None Hw Hg) as HF. apply Forall_app in HF. apply HF.
-  - constructor; [|constructor]. simpl. destruct (wf_tmp_split c Hw) as [H1 H2]. split; assumption.
+    + pose proof (plan_diff_outside c None Hw) as HF. apply Forall_app in HF. apply HF.
+  - destruct (true && valid_pkgs c); [|constructor].
+    constructor; [|constructor]. simpl. destruct (wf_tmp_split c Hw) as [H1 H2]. split; assumption.
 Qed.
 
 (* semantic placement: whatever the operation touches strictly below the root is allowed *)
@@ -680,40 +678,39 @@ Proof.
   - eapply IH; eauto.
 Qed.
 
-Lemma plan_main_sem : forall c d, wf_pkg c = true -> wf_tmp c = true -> guard_F10b c = true ->
+Lemma plan_main_sem : forall c d, wf_tmp c = true ->
   Forall (fun so => sem_ok c (snd so)) (plan_main c d None).
 Proof.
-  intros c d Hwf Hw Hg. destruct d.
-  - pose proof (plan_diff_outside c None Hw Hg) as HF. apply Forall_app in HF. destruct HF as [HF _].
+  intros c d Hw. destruct d.
+  - pose proof (plan_diff_outside c None Hw) as HF. apply Forall_app in HF. destruct HF as [HF _].
     eapply Forall_impl; [|exact HF]. intros so. apply outside_sem_ok.
   - unfold plan_main. apply Forall_forall. intros [st op] Hso. apply in_flat_map in Hso.
     destruct Hso as [st' [Hst Hop]]. apply in_map_iff in Hop. destruct Hop as [op' [E Hop]].
     inversion E; subst. simpl. apply abs_sem_ok.
-    pose proof (effects_direct_ok c st Hwf Hg (before_incl _ _ _ Hst)) as HF.
+    pose proof (effects_direct_ok c st (before_incl _ _ _ Hst)) as HF.
     rewrite Forall_forall in HF. apply HF. exact Hop.
 Qed.
 
 Theorem contained_io : forall c name s p,
-  wf_pkg c = true -> wf_tmp c = true -> wf_log c = true -> guard_F10b c = true ->
+  wf_tmp c = true -> wf_log c = true ->
   In p (touched s (plan_io c name s)) -> sunder (root c) p = true -> allowed c p = true.
 Proof.
-  intros c name s p Hwf Hw Hl Hg Hin Hs. eapply touched_plan_sem; [|exact Hin|exact Hs].
+  intros c name s p Hw Hl Hin Hs. eapply touched_plan_sem; [|exact Hin|exact Hs].
   unfold plan_io, io_run. apply Forall_app. split.
   - apply (io_plan_Forall (sem_ok c) name c).
     + intros p0 q. apply sem_ok_closed.
     + intro st. eapply Forall_impl; [|apply error_log_outside; exact Hl]. intro op. apply outside_sem_ok.
     + apply plan_main_sem; assumption.
-  - destruct (diff_mode c s); [|constructor]. constructor; [|constructor]. simpl. apply outside_sem_ok.
+  - destruct (diff_mode c s && valid_pkgs c); [|constructor]. constructor; [|constructor]. simpl. apply outside_sem_ok.
     simpl. destruct (wf_tmp_split c Hw) as [H1 H2]. split; assumption.
 Qed.
 
-(* a refused operation makes the call raise, unless it is swallowed (F10c) *)
+(* a refused operation always makes the call raise (F10c fixed: nothing is swallowed) *)
 Theorem io_raises : forall c name s,
-  io_refused c name s = true -> guard_F10c c name s = true -> exists st, snd (generate_io c name s) = FailIO st.
+  io_refused c name s = true -> exists st, snd (generate_io c name s) = FailIO st.
 Proof.
-  intros c name s Hr Hg. unfold io_refused in Hr. unfold guard_F10c in Hg. unfold generate_io. cbn [snd].
-  destruct (io_hit (io_run c name s)) as [st|]; [exists st; reflexivity|].
-  apply negb_true_iff in Hg. congruence.
+  intros c name s Hr. unfold io_refused in Hr. unfold generate_io. cbn [snd].
+  destruct (io_hit (io_run c name s)) as [st|]; [exists st; reflexivity | discriminate].
 Qed.
 
 (* F10c: embedded core, no force, existing tree equal to what would be generated; the OS refuses models/pet.tmp *)
@@ -724,17 +721,17 @@ Definition fs_F10c : fs :=
   fs0 ++ [(pR ++ [s_a], Dir); (pR ++ [s_a; s_init], File 0); (pR ++ [s_a; s_client], Dir);
           (pR ++ [s_a; s_client; s_client_py], File 0); (pR ++ [s_a; s_client; s_models], Dir);
           (pR ++ [s_a; s_client; s_models; s_pet ++ s_dot_py], File 0)].
-Lemma refuted_F10c :
-  wf_pkg cfg_F10c = true /\ wf_tmp cfg_F10c = true /\ wf_log cfg_F10c = true /\ guard_F10b cfg_F10c = true
-  /\ force cfg_F10c = false /\ exists_b fs_F10c (out_dir cfg_F10c) = true
-  /\ guard_F10c cfg_F10c (s_pet ++ s_dot_tmp) fs_F10c = false
+(* regression: the refused write of models/pet.tmp now makes the non-force call raise, tree untouched *)
+Lemma fixed_F10c :
+  valid_pkgs cfg_F10c = true /\ force cfg_F10c = false /\ exists_b fs_F10c (out_dir cfg_F10c) = true
   /\ io_refused cfg_F10c (s_pet ++ s_dot_tmp) fs_F10c = true
-  /\ snd (generate_io cfg_F10c (s_pet ++ s_dot_tmp) fs_F10c) = Returned Ok.
+  /\ snd (generate_io cfg_F10c (s_pet ++ s_dot_tmp) fs_F10c) = FailIO Models
+  /\ restrict_root cfg_F10c (fst (generate_io cfg_F10c (s_pet ++ s_dot_tmp) fs_F10c)) = restrict_root cfg_F10c fs_F10c.
 Proof. repeat split; vm_compute; reflexivity. Qed.
 
 (* non-vacuity of the inner-failure theorems: client.py refused in the direct path -> error log, FailIO Client *)
 Lemma io_nonvacuous :
-  wf_pkg cfg_ok_force = true /\ wf_log cfg_ok_force = true
+  valid_pkgs cfg_ok_force = true /\ wf_log cfg_ok_force = true
   /\ snd (generate_io cfg_ok_force s_client_py fs_ok) = FailIO Client
   /\ lookup (sys_tmp cfg_ok_force ++ [s_error_log]) (fst (generate_io cfg_ok_force s_client_py fs_ok)) = Some (File 1)
   /\ snd (generate_io cfg_ok s_mock_client fs_ok) = FailIO Mocks
